@@ -294,7 +294,8 @@ def keep_tags(clause_text):
 
 
 class Emitter:
-    def __init__(self, repo, template_path, checks_value=False, probe=None, sabotage=None):
+    def __init__(self, repo, template_path, checks_value=False, probe=None, sabotage=None, force_assumed=None):
+        self.force_assumed = dict(force_assumed or {})
         self.repo = repo.rstrip("/")
         self.template_path = template_path
         self.checks_value = checks_value
@@ -358,13 +359,29 @@ class Emitter:
         name = d.opts.get("name", fp.name)
         qual = d.opts.get("qual", d.path[-2].replace("impl ", "") + "::" + fp.name if len(d.path) > 1 else fp.name)
         assumed = bool(d.opts.get("assumed"))
+        undecidable = None
+        if qual in self.force_assumed and not assumed:
+            assumed = True
+            undecidable = self.force_assumed[qual]
+        try:
+            return self._emit_fn_inner(d, src, it, fp, log, orig_text, name, qual, assumed, undecidable)
+        except LostAnchor as e:
+            if not hasattr(e, "qual"):
+                e.qual = qual
+            raise
+
+    def _emit_fn_inner(self, d, src, it, fp, log, orig_text, name, qual, assumed, undecidable):
         ghostonly = False
 
         body = fp.body
         body = strip_cfg(body, log)
         body = ghost_macro(body, log)
         body = type_subs(body, log)
-        body = apply_subs(body, d.subs, log, "fn " + fp.name)
+        if undecidable:
+            body = "{ unimplemented!() }"
+            log.append("UNDECIDABLE on this tree (%s): emitted as an assumed declaration without body; handed to the bounded stand-in" % undecidable[:200])
+        else:
+            body = apply_subs(body, d.subs, log, "fn " + fp.name)
         if self.sabotage and self.sabotage[0] == qual:
             pat, rep = self.sabotage[1], self.sabotage[2]
             body2, n = re.subn(pat, rep, body, count=1, flags=re.S)
@@ -432,6 +449,7 @@ class Emitter:
             orig_body=fp.body,
             probe=d.opts.get("probe", "exit"),
             proved_in=d.opts.get("proved_in"),
+            undecidable=undecidable,
         ))
         return "\n".join(out)
 
